@@ -211,7 +211,7 @@ func TestC26(t *testing.T) {
 	// (b) generated transactions with boundary-biased intervals
 	rec.Check(func(rt *rapid.T) {
 		era := allEras[rapid.IntRange(0, len(allEras)-1).Draw(rt, "era")]
-		c := genCase(rt, era, genOpts{MaxCerts: 2, Interval: func(rt *rapid.T, c *Case) {
+		c := genCase(rt, era, genOpts{MaxCerts: 2, Bystanders: true, Interval: func(rt *rapid.T, c *Case) {
 			c.Slot = genSlot(rt)
 			c.Tx.TTL = genBound(rt, c.Slot, "ttl")
 			if era == Shelley {
